@@ -56,7 +56,7 @@ Definition all_same_b (obs : list cls) : bool := forallb is_same obs.
    (including shrinking a slice before putting it back). *)
 Definition no_carry (mincap : nat) : Prop :=
   forall h0 es s t x, brun Fixed mincap (binit h0) es = Some s ->
-                      In x (visible s t) -> x = 0%N \/ In x (written t es []).
+                      In x (visible s t) -> x = 0%N \/ In x (written es (fun _ => []) t).
 
 (* ... and, as long as no caller shrinks its slice, exactly the bytes it appended, with zeroes
    where it grew the slice with Resize (both before and after the fix). *)
@@ -82,10 +82,12 @@ Definition all_reached (r : list bool) : Prop := Forall (fun b => b = true) r.
 
 (* byteslicepool sequences over the whole API by several users: after every operation the acting
    user sees only zeroes or bytes it appended itself since its Get; a fresh Get shows nothing *)
-Inductive pop := PGet (u cap : Z) | PAppend (u : Z) (d : list N) | PResize (u n : Z) | PPut (u : Z).
+(* [PCheck u]: no call at all - user u looks again at the slice it is still holding *)
+Inductive pop :=
+| PGet (u cap : Z) | PAppend (u : Z) (d : list N) | PResize (u n : Z) | PPut (u : Z) | PCheck (u : Z).
 
 Definition user_of (o : pop) : Z :=
-  match o with PGet u _ | PAppend u _ | PResize u _ | PPut u => u end.
+  match o with PGet u _ | PAppend u _ | PResize u _ | PPut u | PCheck u => u end.
 
 Definition wget (w : list (Z * list N)) (u : Z) : list N :=
   match find (fun p : Z * list N => (fst p =? u)%Z) w with Some p => snd p | None => [] end.
